@@ -786,6 +786,90 @@ fn gen_interp() -> Vec<Case> {
     out
 }
 
+/// Interpreter over real miniscripts: every B term up to `nodes` nodes (full leaf alphabet, so
+/// multi 2-of-3, sortedmulti, multi_a, every hash) as wsh() witness script and as single tr() leaf,
+/// with EVERY witness stack of length 0..=len over {<>, <1>, a well-formed signature, a 32-byte
+/// string, a public key}: too-short stacks, over- and under-satisfied thresholds, wrong element kinds.
+fn gen_interp_terms(nodes: usize, len: usize) -> Vec<Case> {
+    use crate::ast::{build, walk};
+    use crate::keys::{KeyForm, PkEnv, XEnv};
+    use crate::terms::{explore, Alphabet};
+    use miniscript::miniscript::types::Base;
+    let k = key("K1");
+    let sig_e = crate::world::sign_ecdsa(k, [3; 32], 1);
+    let sig_s = vec![7u8; 64];
+    let meta: Vec<u8> = [5u32.to_le_bytes(), 10u32.to_le_bytes()].concat();
+    let stacks = |alpha: &[Vec<u8>]| -> Vec<Vec<Vec<u8>>> {
+        let mut seqs: Vec<Vec<Vec<u8>>> = vec![vec![]];
+        for l in 1..=len {
+            for mut code in 0..alpha.len().pow(l as u32) {
+                let mut v = vec![];
+                for _ in 0..l {
+                    v.push(alpha[code % alpha.len()].clone());
+                    code /= alpha.len();
+                }
+                seqs.push(v);
+            }
+        }
+        seqs
+    };
+    let mut out = vec![];
+    // segwit v0
+    let te = explore::<miniscript::Segwitv0>(nodes, Alphabet::Full, false);
+    let alpha0 = vec![vec![], vec![1], sig_e.clone(), vec![0x42; 32], k.compressed()];
+    let st0 = stacks(&alpha0);
+    for m in te.all() {
+        if m.ty.corr.base != Base::B {
+            continue;
+        }
+        let t = walk(m).relabel_distinct();
+        let ms = match build::<bitcoin::PublicKey, miniscript::Segwitv0>(&t, &PkEnv { form: KeyForm::Compressed }) {
+            Ok(x) => x,
+            Err(_) => continue,
+        };
+        let ws = ms.encode().into_bytes();
+        let spk = [vec![0x00, 0x20], bitcoin::hashes::sha256::Hash::hash(&ws).to_byte_array().to_vec()].concat();
+        for w in &st0 {
+            let mut f = vec![spk.clone(), vec![]];
+            f.extend(w.iter().cloned());
+            f.push(ws.clone());
+            f.push(meta.clone());
+            out.push(Case { kind: "int", payload: join_fields(&f), budget_ms: 3000, origin: "interpreter-term-stack" });
+        }
+    }
+    // tapscript, one leaf
+    let te = explore::<miniscript::Tap>(nodes, Alphabet::Full, true);
+    let alpha1 = vec![vec![], vec![1], sig_s.clone(), vec![0x42; 32], k.x32()];
+    let st1 = stacks(&alpha1);
+    let internal = key("KI").x32();
+    let internal: [u8; 32] = internal.try_into().unwrap();
+    for m in te.all() {
+        if m.ty.corr.base != Base::B {
+            continue;
+        }
+        let t = walk(m).relabel_distinct();
+        let ms = match build::<bitcoin::key::XOnlyPublicKey, miniscript::Tap>(&t, &XEnv) {
+            Ok(x) => x,
+            Err(_) => continue,
+        };
+        let leaf = ms.encode().into_bytes();
+        let leaves = vec![(0u8, leaf.clone())];
+        let root = crate::world::ref_merkle_root(&leaves);
+        let (outk, _) = crate::world::ref_taproot_output(&internal, root);
+        let spk = [vec![0x51, 0x20], outk.to_vec()].concat();
+        let cb = crate::sat::ref_control_block(&leaves, 0, &internal);
+        for w in &st1 {
+            let mut f = vec![spk.clone(), vec![]];
+            f.extend(w.iter().cloned());
+            f.push(leaf.clone());
+            f.push(cb.clone());
+            f.push(meta.clone());
+            out.push(Case { kind: "int", payload: join_fields(&f), budget_ms: 3000, origin: "interpreter-term-stack" });
+        }
+    }
+    out
+}
+
 fn gen_psbt() -> Vec<Case> {
     // start from the valid PSBT states of a few C14 pairs (fully updated + signed), then
     // mutate one field at a time
@@ -952,6 +1036,8 @@ pub fn run(tier: Tier) -> i32 {
     groups.push(("scaling", gen_scaling()));
     groups.push(("scripts", gen_scripts(script_len, script_nodes)));
     groups.push(("interpreter", gen_interp()));
+    let (it_nodes, it_len) = tier.pick((3, 3), (4, 4));
+    groups.push(("interpreter-terms", gen_interp_terms(it_nodes, it_len)));
     groups.push(("psbt", gen_psbt()));
     groups.push(("planner", gen_plan()));
     let mut sizes = serde_json::Map::new();
@@ -998,7 +1084,7 @@ pub fn run(tier: Tier) -> i32 {
         done,
         total,
         done.min(total),
-        "string parsers (22 entry points per string): all strings up to the length bound over a 22-character alphabet, all grammar-token sequences up to the token bound, every single edit of every valid string from the term enumeration, scaling probes (nesting 400..200000, width up to 100000, megabyte names, 1..40-digit numbers); script decoder: token sequences, raw bytes, truncations and opcode substitutions of valid scripts, deep/wide scripts; interpreter: standard spk templates and truncations x scriptSigs x witness sequences; PSBT: every fully-populated reachable state of 5 descriptor pairs with each field dropped / emptied / replaced by a boundary value, through finalize*, extract, update_*, sighash_msg; planner: descriptors over origin-less and origin-carrying keys x asset fingerprints x derivation paths x CanSign/time-lock flags. non-trivial = cases completed by the workers",
+        "string parsers (22 entry points per string): all strings up to the length bound over a 22-character alphabet, all grammar-token sequences up to the token bound, every single edit of every valid string from the term enumeration, scaling probes (nesting 400..200000, width up to 100000, megabyte names, 1..40-digit numbers); script decoder: token sequences, raw bytes, truncations and opcode substitutions of valid scripts, deep/wide scripts; interpreter: standard spk templates and truncations x scriptSigs x witness sequences, and every B term up to the term bound (full leaf alphabet) as wsh script and tr leaf x every witness stack up to the stack bound over {<>, <1>, signature, 32 bytes, key}; PSBT: every fully-populated reachable state of 5 descriptor pairs with each field dropped / emptied / replaced by a boundary value, through finalize*, extract, update_*, sighash_msg; planner: descriptors over origin-less and origin-carrying keys x asset fingerprints x derivation paths x CanSign/time-lock flags. non-trivial = cases completed by the workers",
         true,
     )
 }
